@@ -455,6 +455,15 @@ func (ctx *Context) evaluate() {
 		e.top += 1
 	}
 
+	// 读取整数操作数，类型不符时报错而不是panic
+	readIntOperand := func(v *VMValue, name string) (IntType, bool) {
+		val, ok := v.ReadInt()
+		if !ok {
+			ctx.Error = fmt.Errorf("类型错误: %s必须为整数，不能为 %s", name, v.GetTypeName())
+		}
+		return val, ok
+	}
+
 	getRollMode := func() int {
 		if ctx.Config.DiceMinMode {
 			return -1
@@ -949,7 +958,10 @@ func (ctx *Context) evaluate() {
 
 		case typeDiceCocBonus, typeDiceCocPenalty:
 			t := stackPop()
-			diceNum := t.MustReadInt()
+			diceNum, ok := readIntOperand(t, "奖惩骰数量")
+			if !ok {
+				return
+			}
 
 			if numOpCountAdd(diceNum) {
 				return
@@ -975,27 +987,48 @@ func (ctx *Context) evaluate() {
 			// if v.TypeId != VMTypeInt {
 			//   // ...
 			// }
-			wodState.points = v.MustReadInt()
+			val, ok := readIntOperand(v, "面数")
+			if !ok {
+				return
+			}
+			wodState.points = val
 		case typeWodSetThreshold:
 			v := stackPop()
-			wodState.threshold = v.MustReadInt()
+			val, ok := readIntOperand(v, "成功线")
+			if !ok {
+				return
+			}
+			wodState.threshold = val
 			wodState.isGE = true
 		case typeWodSetThresholdQ:
 			v := stackPop()
-			wodState.threshold = v.MustReadInt()
+			val, ok := readIntOperand(v, "成功线")
+			if !ok {
+				return
+			}
+			wodState.threshold = val
 			wodState.isGE = false
 		case typeWodSetPool:
 			v := stackPop()
-			wodState.pool = v.MustReadInt()
+			val, ok := readIntOperand(v, "骰池")
+			if !ok {
+				return
+			}
+			wodState.pool = val
 		case typeDiceWod:
 			v := stackPop() // 加骰线
 
-			// 变量检查
-			if !wodCheck(ctx, v.MustReadInt(), wodState.pool, wodState.points, wodState.threshold) {
+			addLine, ok := readIntOperand(v, "加骰线")
+			if !ok {
 				return
 			}
 
-			num, _, _, detailText := RollWoD(ctx.RandSrc, v.MustReadInt(), wodState.pool, wodState.points, wodState.threshold, wodState.isGE, getRollMode())
+			// 变量检查
+			if !wodCheck(ctx, addLine, wodState.pool, wodState.points, wodState.threshold) {
+				return
+			}
+
+			num, _, _, detailText := RollWoD(ctx.RandSrc, addLine, wodState.pool, wodState.points, wodState.threshold, wodState.isGE, getRollMode())
 			ret := NewIntVal(num)
 			details[len(details)-1].Ret = ret
 			details[len(details)-1].Text = detailText
@@ -1007,16 +1040,28 @@ func (ctx *Context) evaluate() {
 			dcInit()
 		case typeDCSetPool:
 			v := stackPop()
-			dcState.pool = v.MustReadInt()
-		case typeDCSetPoints:
-			v := stackPop()
-			dcState.points = v.MustReadInt()
-		case typeDiceDC:
-			v := stackPop() // 暴击值 / 也可以理解为加骰线
-			if !doubleCrossCheck(ctx, v.MustReadInt(), dcState.pool, dcState.points) {
+			val, ok := readIntOperand(v, "骰池")
+			if !ok {
 				return
 			}
-			success, _, _, detailText := RollDoubleCross(nil, v.MustReadInt(), dcState.pool, dcState.points, getRollMode())
+			dcState.pool = val
+		case typeDCSetPoints:
+			v := stackPop()
+			val, ok := readIntOperand(v, "面数")
+			if !ok {
+				return
+			}
+			dcState.points = val
+		case typeDiceDC:
+			v := stackPop() // 暴击值 / 也可以理解为加骰线
+			addLine, ok := readIntOperand(v, "暴击值")
+			if !ok {
+				return
+			}
+			if !doubleCrossCheck(ctx, addLine, dcState.pool, dcState.points) {
+				return
+			}
+			success, _, _, detailText := RollDoubleCross(nil, addLine, dcState.pool, dcState.points, getRollMode())
 			ret := NewIntVal(success)
 			details[len(details)-1].Ret = ret
 			details[len(details)-1].Text = detailText
